@@ -1171,6 +1171,8 @@ def argi(F, site, name, pos, ty=None):
     """Index into site.args of the callee's parameter `name`; failing that the only parameter whose declared type matches `ty`; failing
     that `pos` (the index it had when the rule was written).  Renaming or reordering the parameters of a private function must not
     change a verdict."""
+    if getattr(F, 'arg_permutations', None) is not None:
+        return pos    # core.Facts already presents every call in the frozen parameter order (rules/signatures.json)
     g = F.fn_opt(site.callee) if site.callee else None
     if g is not None:
         for i in range(1, g.nargs + 1):
